@@ -2896,10 +2896,8 @@ class VM:
 
         # For named function expressions, bind the function name to itself
         # This allows recursive calls like: var f = function fact(n) { return fact(n-1); }
-        if compiled.name and compiled.name in compiled.locals:
-            name_slot = compiled.locals.index(compiled.name)
-            if name_slot >= len(compiled.params) + 1:  # After params and arguments
-                locals_list[name_slot] = func
+        if compiled.binds_own_name:
+            locals_list[compiled.locals.index(compiled.name)] = func
 
         # Get closure cells from the function
         closure_cells = getattr(func, "_closure_cells", None)
